@@ -122,7 +122,33 @@ let show_route = function
   | Route (None, p) -> Printf.sprintf "ROUTE %d NONE" (int_of_n p)
   | Route (Some al, p) -> Printf.sprintf "ROUTE %d %s" (int_of_n p) (hex_of_bytes (List.concat al))
 
-let die_word w = match int_of_n w with 0 -> "CONF" | 1 -> "D5.1.10" | 2 -> "Z4.4.3" | _ -> "UNMODELLED"
+
+(* ---- op 08: smtproute with all keys ---- *)
+let rec parse_paths (b : int list) = match b with
+  | [] -> []
+  | l :: r -> let (p, r) = take_n l r in if List.mem 0 p then raise Bad; List.map n_of_int p :: parse_paths r
+let parse_route_case_x remhost dnsf flagsf readable files =
+  let (cfg, rh) = parse_route_case remhost dnsf flagsf files in
+  let flags = (match ints_of_hex flagsf with f :: _ -> f | [] -> raise Bad) in
+  (cfg, { k_readable = parse_paths (ints_of_hex readable); k_defkey = flags land 4 <> 0 }, rh)
+let hexs l = if l = [] then "-" else String.concat "" (List.map (fun x -> Printf.sprintf "%02x" (int_of_n x)) l)
+let show_obs = function
+  | OFatal c -> Printf.sprintf "FATAL %d" (int_of_n c)
+  | ORoute (mx, p, n, t, c, k, o, o6) ->
+      Printf.sprintf "ROUTE %d %s N%d T%d C%s K%s O%s P%s" (int_of_n p)
+        (match mx with None -> "NONE" | Some al -> hex_of_bytes (List.concat al))
+        (if n then 1 else 0) (if t then 1 else 0) (hexs c) (hexs k) (hexs o) (hexs o6)
+let parse_obs = function
+  | ["FATAL"; c] -> OFatal (n_of_int (int_of_string c))
+  | ["ROUTE"; p; mx; n; t; c; k; o; o6] ->
+      let tl1 s = String.sub s 1 (String.length s - 1) in
+      let flag s ch = if String.length s = 2 && s.[0] = ch then s.[1] = '1' else raise Bad in
+      ORoute ((if mx = "NONE" then None else Some (List.map (List.map n_of_int) (chunks 16 (ints_of_hex mx)))),
+              n_of_int (int_of_string p), flag n 'N', flag t 'T', bytes_of_hex (tl1 c), bytes_of_hex (tl1 k),
+              bytes_of_hex (tl1 o), bytes_of_hex (tl1 o6))
+  | _ -> raise Bad
+
+let die_word w = match int_of_n w with 0 -> "CONF" | 1 -> "D5.1.10" | 2 -> "Z4.4.3" | 3 -> "Z4.3.0" | _ -> "UNMODELLED"
 let show_answer = function
   | MxList l -> show_list "OK" l
   | MxNoHost -> "RC 1" | MxNull -> "RC 2" | MxTemp -> "RC -2" | MxPerm -> "RC -3" | MxLocal -> "RC -1"
@@ -148,6 +174,9 @@ let model fs =
   | "04" :: remhost :: dnsf :: flagsf :: files ->
       let (cfg, rh) = parse_route_case remhost dnsf flagsf files in
       crashy show_route (smtproute cfg rh)
+  | "08" :: remhost :: dnsf :: flagsf :: readable :: files ->
+      let (cfg, ke, rh) = parse_route_case_x remhost dnsf flagsf readable files in
+      crashy (fun r -> show_obs (observe r)) (smtproute_x cfg ke rh)
   | ["06"; name; dnsf; mxf] ->
       let nm = ints_of_hex name in
       if not (name_ok nm true) then raise Bad;
@@ -158,7 +187,6 @@ let model fs =
       let (nc, cs, _) = params par in
       let (flag, recs) = parse_mxrec mxf in
       let (fail, il) = ifaces_of_hex ifs in
-      if (match ints_of_hex remhost with 91 :: _ -> true | _ -> false) then raise Bad;
       let (cfg, rh) = parse_route_case remhost dnsf flagsf files in
       let tab = parse_dnsx (ints_of_hex dnsf) in
       crashy (function
@@ -169,7 +197,7 @@ let model fs =
               let s' = { s with st_list = s.st_list } in
               let outs' = List.map (fun (a, r) -> (a, match r with TcConnected (_, i) -> TcConnected (N0, i) | x -> x)) outs in
               Printf.sprintf "G%d " (int_of_n port) ^ show_list "P" (z l1) ^ " " ^ show_list "S" (z l2) ^ " " ^ show_try (int_of_n port) s' outs')
-        (qremote_main cfg tab flag recs rh fail il (nat_of_int cs) (bytes_of_hex orc) (nat_of_int nc))
+        (qremote_main_x cfg tab flag recs rh fail il (nat_of_int cs) (bytes_of_hex orc) (nat_of_int nc))
   | "05" :: par :: orc :: ifs :: es ->
       let (nc, cs, port) = params par in
       let (fail, il) = ifaces_of_hex ifs in
@@ -268,6 +296,10 @@ let spec fs obs =
        | ["ROUTE"; p; "NONE"] -> b2s (spec_ok_C20_route cfg rh (Route (None, n_of_int (int_of_string p))))
        | ["ROUTE"; p; a] -> b2s (spec_ok_C20_route cfg rh (Route (Some (List.map (List.map n_of_int) (chunks 16 (ints_of_hex a))), n_of_int (int_of_string p))))
        | _ -> "bad")
+  | "08" :: remhost :: dnsf :: flagsf :: readable :: files ->
+      let (cfg, ke, rh) = parse_route_case_x remhost dnsf flagsf readable files in
+      if not (pre_C20_route_x rh) then "pre" else
+      obs_bad (fun () -> b2s (spec_ok_C20_route_x cfg ke rh (parse_obs obs)))
   | ["06"; name; dnsf; mxf] ->
       let nm = ints_of_hex name in
       if not (name_ok nm true) then raise Bad;
@@ -283,15 +315,14 @@ let spec fs obs =
       let (nc, _, _) = params par in
       let (flag, recs) = parse_mxrec mxf in
       let (fail, il) = ifaces_of_hex ifs in
-      if (match ints_of_hex remhost with 91 :: _ -> true | _ -> false) then raise Bad;
       let (cfg, rh) = parse_route_case remhost dnsf flagsf files in
       let tab = parse_dnsx (ints_of_hex dnsf) in
       let o = bytes_of_hex orc in
-      if not (pre_C20_main cfg tab recs rh) then "pre" else
+      if not (pre_C20_main_x cfg tab recs rh) then "pre" else
       obs_bad (fun () ->
         let gport t = if String.length t > 1 && t.[0] = 'G' then int_of_string (sub t 1) else raise Bad in
         let ob = match obs with
-          | ["DIE"; "CONF"] -> ODie (n_of_int 0) | ["DIE"; "D5.1.10"] -> ODie (n_of_int 1) | ["DIE"; "Z4.4.3"] -> ODie (n_of_int 2)
+          | ["DIE"; "CONF"] -> ODie (n_of_int 0) | ["DIE"; "D5.1.10"] -> ODie (n_of_int 1) | ["DIE"; "Z4.4.3"] -> ODie (n_of_int 2) | ["DIE"; "Z4.3.0"] -> ODie (n_of_int 3)
           | [g; "ALLME"] -> OAllMe (n_of_int (gport g))
           | g :: "P" :: rest ->
               let port = gport g in
@@ -301,7 +332,7 @@ let spec fs obs =
               if not ok || List.length outs <> nc then raise Bad;
               ORun (n_of_int port, List.map entry_of_hex l1, List.map entry_of_hex l2, outs)
           | _ -> raise Bad in
-        b2s (spec_ok_C20_main cfg tab flag recs rh fail il o ob))
+        b2s (spec_ok_C20_main_x cfg tab flag recs rh fail il o ob))
   | _ -> "pre"
   with Bad | Failure _ | Not_found | Invalid_argument _ -> "pre"
 
